@@ -8,6 +8,7 @@ use ezpz_verif_harness::geom::*;
 use ezpz_verif_harness::oracle::*;
 use ezpz_verif_harness::planted::*;
 use ezpz_verif_harness::rng::Rng;
+use kcl_ezpz::datatypes::inputs::DatumPoint;
 use kcl_ezpz::datatypes::{Angle, AngleKind};
 
 use kcl_ezpz::*;
@@ -28,6 +29,7 @@ fn main() {
     let mut rng = Rng::new(seed);
     let mut out: Vec<Violation> = Vec::new();
     let (mut systems, mut oks, mut verdicts, mut listed, mut exempt, mut angle_variants) = (0usize, 0usize, 0usize, 0usize, 0usize, 0usize);
+    let (mut nan_targets, mut undefined_errors) = (0usize, 0usize);
     let mut per_kind = std::collections::BTreeMap::new();
     for i in 0..n {
         let mut sys = match i % 6 {
@@ -65,6 +67,32 @@ fn main() {
             // a re-solve from the previous result (for contradictory systems: from the compromise)
             sys = with_resolve(sys);
         }
+        if i % 11 == 3 {
+            // a short, fully determined feature (edge, arc or segment at an explicit angle, size
+            // 1.5e-3..9e-3): guards that are wider than documented switch a measure off there
+            sys = with_short_feature(&mut rng, sys);
+        }
+        if i % 13 == 6 {
+            // a request that can never hold: a NaN target (its error is NaN at every configuration).
+            // Everything else is satisfied at the planted point, which is also the guess, so the solve
+            // returns at once; the request must be listed as unsatisfied.
+            if let Some(xs) = sys.planted.clone() {
+                if xs.len() >= 4 {
+                    sys.guesses = xs.iter().enumerate().map(|(k, v)| (k as u32, *v)).collect();
+                    let ids: Vec<u32> = (0..4).map(|_| rng.below(xs.len()) as u32).collect();
+                    let (a, b) = (DatumPoint::new_xy(ids[0], ids[1]), DatumPoint::new_xy(ids[2], ids[3]));
+                    let c = match rng.below(4) {
+                        0 => Constraint::Fixed(ids[0], f64::NAN),
+                        1 => Constraint::Distance(a, b, f64::NAN),
+                        2 => Constraint::VerticalDistance(a, b, f64::NAN),
+                        _ => Constraint::HorizontalDistance(a, b, f64::NAN),
+                    };
+                    let at = rng.below(sys.reqs.len() + 1);
+                    sys.reqs.insert(at, ConstraintRequest::highest_priority(c));
+                    nan_targets += 1;
+                }
+            }
+        }
         if i % 3 == 1 {
             // explicit angles re-expressed up front (other unit, whole turns added or removed: 450deg,
             // -270deg, 7.85rad ...): the geometric verdict check below then runs on angles outside
@@ -95,7 +123,14 @@ fn main() {
             if x.iter().any(|v| !v.is_finite()) {
                 continue;
             }
-            let scale = x.iter().fold(0.0f64, |a, v| a.max(v.abs())).max(1e-9);
+            // the SIZE of the sketch (the generator's scale; for generators that do not set one, the
+            // spread of the returned coordinates), not the magnitude of its coordinates: a sketch of
+            // size 1 drawn at (1.5e6, 2.5e6) is not "degenerate up to 1e3"
+            let spread = {
+                let (lo, hi) = x.iter().fold((f64::INFINITY, f64::NEG_INFINITY), |(lo, hi), v| (lo.min(*v), hi.max(*v)));
+                (hi - lo).abs()
+            };
+            let scale = if sys.planted.is_some() { sys.scale } else { x.iter().fold(0.0f64, |a, v| a.max(v.abs())).min(spread.max(1e-9)) }.max(1e-9);
             for (idx, r) in sys.reqs.iter().enumerate() {
                 if r.priority() > o.priority_solved() {
                     continue;
@@ -111,8 +146,23 @@ fn main() {
                 // exemption by the independent specification only (documented guard bands), never by the
                 // implementation's own degenerate flag: a request wrongly flagged degenerate must not hide
                 let guarded = ezpz_verif_harness::geom::in_guard_band(c, x);
-                if g.degenerate || guarded || g.errs.iter().any(|e| !e.is_finite()) {
+                if g.degenerate || guarded {
                     exempt += 1;
+                    continue;
+                }
+                if g.errs.iter().any(|e| !e.is_finite()) {
+                    // the geometric error is undefined (NaN target, overflow): the request does not hold,
+                    // so it must be listed
+                    undefined_errors += 1;
+                    if !is_listed {
+                        out.push(Violation {
+                            property: "C01",
+                            what: format!("request {idx} ({}) is reported satisfied but its geometric error is not a number (it cannot hold at the returned coordinates)", c.constraint_kind()),
+                            signature: format!("satisfied-but-undefined:{}", c.constraint_kind()),
+                            system: Some(sys.clone()),
+                            extra: String::new(),
+                        });
+                    }
                     continue;
                 }
                 let gmax = g.errs.iter().fold(0.0f64, |a, e| a.max(e.abs()));
@@ -200,7 +250,7 @@ fn main() {
         }
     }
     println!(
-        "STATS {{\"systems\": {systems}, \"ok_results\": {oks}, \"verdicts_checked\": {verdicts}, \"listed_unsatisfied\": {listed}, \"exempt_degenerate\": {exempt}, \"angle_reexpressions\": {angle_variants}, \"per_kind\": {:?}, \"violations\": {}}}",
+        "STATS {{\"systems\": {systems}, \"ok_results\": {oks}, \"verdicts_checked\": {verdicts}, \"listed_unsatisfied\": {listed}, \"exempt_degenerate\": {exempt}, \"angle_reexpressions\": {angle_variants}, \"nan_target_requests\": {nan_targets}, \"undefined_errors_checked\": {undefined_errors}, \"per_kind\": {:?}, \"violations\": {}}}",
         per_kind,
         out.len()
     );
